@@ -249,14 +249,16 @@ def wordIdiv (s : AluState) (val : BitVec 16) : Option (AluState × BitVec 16) :
 
 def aaa (s : AluState) : AluState :=
   let al := getAL s.ax
-  if (al &&& 0x0F#8) > 9#8 || getFlag s.flag .AUX_CARRY then
-    let ax := setAL s.ax (((al.setWidth 16 + 6#16) &&& 0x0F#16).setWidth 8)
-    let ah := getAH ax
-    let ax := setAH ax ((ah.setWidth 16 + 1#16).setWidth 8)
-    { s with ax := ax, flag := setFlag (setFlag s.flag .AUX_CARRY) .CARRY }
-  else
-    let ax := setAL s.ax (al &&& 0x0F#8)
-    { s with ax := ax, flag := unsetFlag (unsetFlag s.flag .AUX_CARRY) .CARRY }
+  let c := (al &&& 0x0F#8) > 9#8 || getFlag s.flag .AUX_CARRY
+  -- then-branch
+  let ax1 := setAL s.ax (((al.setWidth 16 + 6#16) &&& 0x0F#16).setWidth 8)
+  let ah := getAH ax1
+  let ax1 := setAH ax1 ((ah.setWidth 16 + 1#16).setWidth 8)
+  -- else-branch
+  let ax2 := setAL s.ax (al &&& 0x0F#8)
+  { s with ax := if c then ax1 else ax2,
+           flag := if c then setFlag (setFlag s.flag .AUX_CARRY) .CARRY
+                   else unsetFlag (unsetFlag s.flag .AUX_CARRY) .CARRY }
 
 def aad (s : AluState) : AluState :=
   let al := getAL s.ax
@@ -275,50 +277,47 @@ def aam (s : AluState) : AluState :=
 
 def aas (s : AluState) : AluState :=
   let al := getAL s.ax
-  if (al &&& 0x0F#8) > 9#8 || getFlag s.flag .AUX_CARRY then
-    let ah := getAH s.ax
-    let ax := setAL s.ax ((al.setWidth 16 - 6#16).setWidth 8 &&& 0x0F#8)
-    let ax := setAH ax ((ah.setWidth 16 - 1#16).setWidth 8)
-    { s with ax := ax, flag := setFlag (setFlag s.flag .AUX_CARRY) .CARRY }
-  else
-    let ax := setAL s.ax (al &&& 0x0F#8)
-    { s with ax := ax, flag := unsetFlag (unsetFlag s.flag .AUX_CARRY) .CARRY }
+  let c := (al &&& 0x0F#8) > 9#8 || getFlag s.flag .AUX_CARRY
+  let ah := getAH s.ax
+  let ax1 := setAL s.ax ((al.setWidth 16 - 6#16).setWidth 8 &&& 0x0F#8)
+  let ax1 := setAH ax1 ((ah.setWidth 16 - 1#16).setWidth 8)
+  let ax2 := setAL s.ax (al &&& 0x0F#8)
+  { s with ax := if c then ax1 else ax2,
+           flag := if c then setFlag (setFlag s.flag .AUX_CARRY) .CARRY
+                   else unsetFlag (unsetFlag s.flag .AUX_CARRY) .CARRY }
 
 def daa (s : AluState) : AluState :=
   let al := getAL s.ax
-  let (ax, fl) :=
-    if (al &&& 0x0F#8) > 9#8 || getFlag s.flag .AUX_CARRY then
-      (setAL s.ax ((al.setWidth 16 + 6#16).setWidth 8), setFlag s.flag .AUX_CARRY)
-    else (s.ax, unsetFlag s.flag .AUX_CARRY)
+  let c1 := (al &&& 0x0F#8) > 9#8 || getFlag s.flag .AUX_CARRY
+  let ax := if c1 then setAL s.ax ((al.setWidth 16 + 6#16).setWidth 8) else s.ax
+  let fl := if c1 then setFlag s.flag .AUX_CARRY else unsetFlag s.flag .AUX_CARRY
   let al := getAL ax
-  let (ax, fl, overflow) :=
-    if al > 0x9F#8 || getFlag fl .CARRY then
-      let temp := al.setWidth 16 + 0x60#16
-      (setAL ax (temp.setWidth 8), setFlag fl .CARRY, decide (temp > 255#16))
-    else (ax, unsetFlag fl .CARRY, false)
+  let c2 := al > 0x9F#8 || getFlag fl .CARRY
+  let temp := al.setWidth 16 + 0x60#16
+  let overflow := c2 && decide (temp > 255#16)
+  let ax := if c2 then setAL ax (temp.setWidth 8) else ax
+  let fl := if c2 then setFlag fl .CARRY else unsetFlag fl .CARRY
   let res := getAL ax
   let fl := setFlagHelper fl (decide (res ≥ 0x80#8)) (res == 0#8) (hasEvenParity res)
   { s with ax := ax, flag := putFlag fl .OVERFLOW overflow }
 
 def das (s : AluState) : AluState :=
   let al := getAL s.ax
-  let (ax, fl) :=
-    if (al &&& 0x0F#8) > 9#8 || getFlag s.flag .AUX_CARRY then
-      (setAL s.ax ((al.setWidth 16 - 6#16).setWidth 8), setFlag s.flag .AUX_CARRY)
-    else (s.ax, unsetFlag s.flag .AUX_CARRY)
+  let c1 := (al &&& 0x0F#8) > 9#8 || getFlag s.flag .AUX_CARRY
+  let ax := if c1 then setAL s.ax ((al.setWidth 16 - 6#16).setWidth 8) else s.ax
+  let fl := if c1 then setFlag s.flag .AUX_CARRY else unsetFlag s.flag .AUX_CARRY
   let al := getAL ax
-  let (ax, fl) :=
-    if al > 0x9F#8 || getFlag fl .CARRY then
-      (setAL ax ((al.setWidth 16 - 0x60#16).setWidth 8), setFlag fl .CARRY)
-    else (ax, unsetFlag fl .CARRY)
+  let c2 := al > 0x9F#8 || getFlag fl .CARRY
+  let ax := if c2 then setAL ax ((al.setWidth 16 - 0x60#16).setWidth 8) else ax
+  let fl := if c2 then setFlag fl .CARRY else unsetFlag fl .CARRY
   let res := getAL ax
   { s with ax := ax, flag := setFlagHelper fl (decide (res ≥ 0x80#8)) (res == 0#8) (hasEvenParity res) }
 
 def cbw (s : AluState) : AluState :=
   let al := getAL s.ax
-  if al &&& 0x80#8 != 0#8 then { s with ax := setAH s.ax 255#8 } else { s with ax := setAH s.ax 0#8 }
+  { s with ax := if al &&& 0x80#8 != 0#8 then setAH s.ax 255#8 else setAH s.ax 0#8 }
 
 def cwd (s : AluState) : AluState :=
-  if s.ax &&& 0x8000#16 != 0#16 then { s with dx := 0xFFFF#16 } else { s with dx := 0#16 }
+  { s with dx := if s.ax &&& 0x8000#16 != 0#16 then 0xFFFF#16 else 0#16 }
 
 end Emu8086
